@@ -82,6 +82,9 @@ def handle(job):
     if comp is not None:
       cp = rs.standard_normal(comp).astype(np.float32)
       r_cp = make_runner(opt, o_none, [shape, comp], seed, {"p0": jnp.asarray(p_t), "p1": jnp.asarray(cp)})
+      # ... and with the companion BEFORE the target in flattening order (per-parameter quantities computed in
+      # a loop over the tree must not be carried over from an earlier parameter of another rank)
+      r_cb = make_runner(opt, o_none, [comp, shape], seed, {"p0": jnp.asarray(cp), "p1": jnp.asarray(p_t)})
     # ---- a SMALLER parameter alone vs next to the blocked target (its statistics get padded to the
     #      target's size in Distributed Shampoo's stacked root computation) --------------------------------
     small = (2, 2)
@@ -137,11 +140,14 @@ def handle(job):
       if r_cp is not None:
         gc = rs.standard_normal(comp).astype(np.float32) * np.float32(1e6 if case["companion"] == "huge" else 1.0)
         u_cp = upd(opt, r_cp, r_cp.step({"p0": jnp.asarray(g), "p1": jnp.asarray(gc)}))["p0"]
+        u_cb = upd(opt, r_cb, r_cb.step({"p0": jnp.asarray(gc), "p1": jnp.asarray(g)}))["p1"]
         for i, bl in enumerate(blocks):
-          d = relb(u_cp[bl], u_bl[bl])
-          worst["companion"] = max(worst["companion"], d)
-          if not np.isfinite(d) or d > 1e-4:
-            mism.append({"clause": "update_depends_on_companion_parameter", "step": t, "block": i, "detail": d})
+          for u_c, where in ((u_cp, "after"), (u_cb, "before")):
+            d = relb(u_c[bl], u_bl[bl])
+            worst["companion"] = max(worst["companion"], d)
+            if not np.isfinite(d) or d > 1e-4:
+              mism.append({"clause": f"update_depends_on_companion_parameter_{where}_it", "step": t, "block": i,
+                           "detail": d})
   except Exception as e:
     return {"mismatches": [], "worst": worst, "error": f"{type(e).__name__}: {e}",
             "kind": core.classify_exception(e), "tb": traceback.format_exc()[-2000:]}
